@@ -7,23 +7,28 @@ from vlib import dtcodec, gen
 
 META = {
     'level_text': 'Theorems for every lawful float carrier, every well-formed datatype tree of any depth, every JSON value / Python '
-                  'value offered and every previous value from the value set: accept_sound / validate_sound (an accepted value '
-                  'lies in the declared value set), accept_denotes / validate_denotes / import_denotes (it is the value that was '
-                  'offered: no string taken as a number, no fraction truncated, strict base64, equal lengths, key-wise structs), '
-                  'accept_total / validate_total / import_total / call_total (only bad-value errors), validate_idem / call_idem '
-                  '(validating a validated value returns it unchanged).  The models of import_value / validate / __call__ are tied to '
-                  'frappy/datatypes.py by a correspondence run on the real classes, and the Lean monitors (decide of the same '
-                  'Props) judge every outcome of the implementation.',
-    'level_note': 'Trusted: Lean kernel + axioms propext/Classical.choice/Quot.sound; the order / rounding laws of LawfulFloatOps for '
-                  'binary64 (proved for the exact carrier Rat, re-tested on the doubles drawn); idempotence for scaled types assumes the '
-                  'grid law round(k*scale/scale) = k on the declared index range (DType.GridExact).  lazy_number_validation stays '
-                  'False.  Strings with lone surrogates are judged for totality only.',
+                  'value offered and every previous value that is absent or in the value set: accept_sound / validate_sound (an '
+                  'accepted value lies in the declared value set), import_denotes + validate_denotes = accept_denotes (the JSON value '
+                  'stands for a Python value v - no string taken as a number, no fraction truncated, canonical base64, equal lengths - '
+                  'and the accepted value denotes v: numerically equal or clamped from inside the documented tolerance, element-wise, '
+                  'key-wise with previous), accept_total / validate_total / import_total / call_total (only bad-value errors), '
+                  'validate_idem + validate_canon = revalidate_unchanged (a validated value is returned unchanged, without and with '
+                  'itself as previous; hypothesis GridExact: the grid of every scaled type is exactly representable on its range), '
+                  'inSetB_sound / inSetB_complete.  Not proved: call_idem (statement kept; judged by the monitor on every outcome of '
+                  '__call__).  The models are tied to frappy/datatypes.py by a correspondence run on the real classes; the Lean '
+                  'monitors are `decide` of the specification Props themselves.',
+    'level_note': 'Trusted: Lean kernel + axioms propext/Classical.choice/Quot.sound; the 27 laws of LawfulFloatOps for binary64 (all '
+                  'proved for the exact carrier Rat; re-tested on the doubles of every run - a test).  GridExact (hypothesis of '
+                  'idempotence) holds over Rat; for binary64 it can fail where scale is below the float spacing at the limits (grid '
+                  'indices beyond 2^53) - the generator probes that region.  lazy_number_validation stays False.  Lone-surrogate '
+                  'strings and previous values of a wrong kind are judged for totality only.  Previous values are values that '
+                  'validate accepts.',
     'trusted': [
-        'binary64 restricted to non-NaN values satisfies the laws of LawfulFloatOps (FrappyModel/Base/Num.lean): order laws, '
-        'monotonicity of x/scale, k*scale, round(); proved for the Rat carrier',
-        'grid law for scaled types (hypothesis DType.GridExact of validate_idem): round((k*scale)/scale) = k for the grid indices in range',
+        'binary64 satisfies the 27 laws of LawfulFloatOps (FrappyModel/Base/Num.lean): order laws, monotonicity of x/scale, k*scale, '
+        'round(), x + 0.0, tolerance band; proved for the Rat carrier, re-tested on the doubles of each run',
+        'GridExact (hypothesis of validate_idem): round((k*scale)/scale) = k and finiteness on the declared grid range',
         'FrappyDrive/FloatInst.lean: Float instance of FloatOps (exact ofInt/round/trunc computed from bit patterns)',
-        'Base64.decode? = base64.b64decode(str, validate=True) (library behaviour, compared on every blob case)',
+        'Base64.decode? = canonical base64 = what b64decode(validate=True) followed by the re-encoding comparison accepts (compared on every blob case)',
     ],
     'modelled_not_verified': [
         'CPython float arithmetic, round(), int(), json.loads',
@@ -161,6 +166,18 @@ def make_cases(rng, tree, per_tree, big):
             for x in rng.sample(nums, min(len(nums), max(2, nbound // 2))):
                 cases.append((mode, 'boundary', gen.subst(base, path, x), gen.gen_previous(rng, tree)))
                 nb += 1
+    # strings / blobs of length exactly at and next to the limits, single special characters
+    nl = 0
+    for mode, base in valids:
+        if base is None or nl >= max(4, nbound):
+            continue
+        leaves = list(gen.leaf_paths(tree, base, ('string', 'blob')))
+        rng.shuffle(leaves)
+        for path, lt in leaves[:2]:
+            vs = gen.length_variants(rng, lt, mode == 'wire')
+            for x in rng.sample(vs, min(len(vs), max(3, nbound // 2))):
+                cases.append((mode, 'length', gen.subst(base, path, x), gen.gen_previous(rng, tree)))
+                nl += 1
     # shapes
     ns = 0
     for mode, base in valids[:2]:
@@ -185,6 +202,63 @@ def surrogate_cases(rng, tree, n):
         p = rng.choice(pos)
         out.append(gen.subst(w, p, rng.choice(['\ud800', 'a\udfffb', '\udc00\ud800'])))
     return out
+
+
+def collect_numbers(j, fl, it):
+    """bit patterns of all floats and all integers inside a protocol value / tree"""
+    if isinstance(j, dict):
+        if set(j) == {'f'}:
+            fl.add(j['f'])
+            return
+        for v in j.values():
+            collect_numbers(v, fl, it)
+    elif isinstance(j, list):
+        for v in j:
+            collect_numbers(v, fl, it)
+    elif isinstance(j, int) and not isinstance(j, bool):
+        it.add(j)
+
+
+def law_test(ctx, res, cases):
+    """evaluates every law of LawfulFloatOps with the Float instance on tuples of the doubles / integers of this run"""
+    fl, it = set(), set()
+    for c, _ in cases:
+        collect_numbers(c['tree'], fl, it)
+        collect_numbers(c['cand'], fl, it)
+        collect_numbers(c['prev'], fl, it)
+    for x in gen.FLOAT_CAT + gen.SCALES + [gen.NAN, gen.INF, -gen.INF, -0.0, 5e-324, -5e-324, 2.2250738585072014e-308]:
+        fl.add(dtcodec.f2bits(x))
+    it.update(gen.INT_CAT + [2 ** 70, -2 ** 70, 10 ** 400, 2 ** 53 + 1, 2 ** 1024 - 2 ** 970, 2 ** 1024 - 2 ** 970 - 1])
+    fl, it = sorted(fl), sorted(it)
+    n = ctx.budget(3000, 40000)
+    rng = ctx.rng
+    tuples = []
+    for _ in range(n):
+        x, y = rng.choice(fl), rng.choice(fl)
+        r = rng.random()
+        z = rng.choice(fl) if r < 0.5 else dtcodec.f2bits(rng.choice(gen.SCALES + [1e-5, 5e-324, 1e300]))
+        if rng.random() < 0.3:
+            y = x if rng.random() < 0.3 else dtcodec.f2bits(__import__('math').nextafter(dtcodec.bits2f(x), rng.choice([-gen.INF, gen.INF])))
+        tuples.append([x, y, z, rng.choice(it), rng.choice(it)])
+    ans = ctx.driver.batch([{'p': 'C01', 'k': 'laws', 'tuples': tuples[i:i + 2000]} for i in range(0, len(tuples), 2000)])
+    fails = {}
+    k = 0
+    for a in ans:
+        if 'driver_error' in a:
+            raise RuntimeError(f'driver error {a}')
+        for names in a['fail']:
+            for name in names:
+                fails.setdefault(name, tuples[k])
+            k += 1
+    res.count('float-law re-test (a test): tuples', len(tuples))
+    res.count('float-law re-test (a test): distinct doubles', len(fl))
+    res.count('float-law re-test (a test): laws violated', len(fails))
+    res.notes.append(f'float-law re-test (a test, not a proof): the {27} laws of LawfulFloatOps evaluated with the Float instance on '
+                     f'{len(tuples)} tuples over the {len(fl)} distinct doubles and {len(it)} integers of this run: '
+                     f'{len(fails)} laws violated')
+    for name, t in fails.items():
+        res.disagreements.append({'case': {'law': name, 'tuple': t}, 'model': 'law assumed for binary64',
+                                  'impl': 'fails on this tuple (bit patterns x, y, z; integers i, j)'})
 
 
 def load_corpus(ctx):
@@ -321,6 +395,7 @@ def run(ctx):
         d = rng.choice([1, 2, 2, 3, 3, 3] + ([4, 5] if big else []))
         trees.append(gen.gen_tree(rng, min(d, maxdepth)))
     surrogates = []
+    oddprev = []
     for tree0 in trees:
         try:
             dt, tree = build_dt(tree0)
@@ -359,6 +434,11 @@ def run(ctx):
         if any(k in ('string', 'enum', 'struct') for k in dtcodec.tree_kinds(tree)):
             for s in surrogate_cases(rng, tree, 2):
                 surrogates.append((tree, s))
+        if tree['t'] in ('array', 'tuple', 'struct'):
+            v = gen.gen_valid(rng, tree)
+            if v is not None:
+                for p in rng.sample(gen.ODD_PREVIOUS, 3):
+                    oddprev.append((tree, gen.to_driver(rng, tree, v), p))
 
     # ---------- run the implementation, ask the model and the monitors ----------
     CH = 20000
@@ -409,6 +489,9 @@ def run(ctx):
                                        'what': f'{clause}: ' + describe(small, simpl),
                                        'case': small, 'detail': {'clause': clause, 'original': c if small is not c else None}})
 
+    # ---------- re-test of the float laws on the doubles drawn (a test of the trusted base, not a proof) ----------
+    law_test(ctx, res, cases)
+
     # ---------- totality-only stream (inputs the model cannot represent) ----------
     reqs, meta = [], []
     for tree, cand in surrogates:
@@ -432,11 +515,37 @@ def run(ctx):
             res.violations.append({'sig': 'C01:total:unmodelled-input:' + tree['t'] + ':' + classes,
                                    'what': f'{dtcodec.tree_to_dt(tree)!r} candidate={cand!r}: {enc}',
                                    'case': {'tree': tree, 'mode': 'surrogate', 'cand': json.dumps(cand), 'prev': None}})
+    # ---------- previous values of the wrong kind / length (outside the model: totality only) ----------
+    reqs, meta = [], []
+    for tree, cand, prev in oddprev:
+        dt = dtcodec.tree_to_dt(tree)
+        out = _outcome(lambda: dt.validate(cand, prev))
+        enc = ['bad' if out[0] == 'bad' else {'other': out[1]} if out[0] == 'other' else {'ok': None}]
+        reqs.append({'p': 'C01', 'k': 'total', 'outs': enc})
+        meta.append((tree, cand, prev, enc))
+    for (tree, cand, prev, enc), ans in zip(meta, ctx.driver.batch(reqs)):
+        res.evaluations += 1
+        res.traces += 1
+        res.count('stream=odd previous(totality only)')
+        if ans.get('judge'):
+            cls = enc[0]['other']
+            res.violations.append({'sig': 'C01:total:odd-previous:' + tree['t'] + ':' + cls,
+                                   'what': f'{dtcodec.tree_to_dt(tree)!r}.validate({cand!r}, previous={prev!r}) raised {cls}',
+                                   'case': {'tree': tree, 'mode': 'oddprev', 'cand': dtcodec.py_to_json(cand),
+                                            'prev': dtcodec.py_to_json(prev)}})
     return res
 
 
 def replay(ctx, rp):
     case = rp['case']
+    if case['mode'] == 'oddprev':
+        dt = dtcodec.tree_to_dt(case['tree'])
+        cand, prev = dtcodec.json_to_py(case['cand']), dtcodec.json_to_py(case['prev'])
+        out = _outcome(lambda: dt.validate(cand, prev))
+        print('datatype :', repr(dt))
+        print('candidate:', repr(cand), 'previous:', repr(prev))
+        print('impl     :', out)
+        return 1 if out[0] == 'other' else 0
     if case['mode'] == 'surrogate':
         dt = dtcodec.tree_to_dt(case['tree'])
         cand = json.loads(case['cand'])
